@@ -62,7 +62,11 @@ def check(ctx, report):
                 report('tref-source-changed:' + label, '%s changed its source' % label)
             if not want['ok']:
                 stats['conflicts' if want['cls'] == 'ReadOnlyDataError' else 'untranslatable'] += 1      # (ValueError / IncompleteDataError)
-                if kind != 'error' or type(v).__name__ != want['cls']:
+                # which error reports an impossible translation is not part of the statement: any error but
+                # the conflict error is accepted there; the conflict must be the read-only-data error
+                same = (type(v).__name__ == want['cls']) if want['cls'] == 'ReadOnlyDataError' \
+                    else (type(v).__name__ != 'ReadOnlyDataError')
+                if kind != 'error' or not same:
                     report('tref-outcome:' + label, '%s -> %s; the specification expects %s'
                            % (label, 'merged' if kind != 'error' else type(v).__name__, want['cls']))
                 elif snapshot(a) != before[0]:
